@@ -110,3 +110,102 @@ bytes_harness!(cursor_bytes_total_len4, 4);
 bytes_harness!(cursor_bytes_total_len5, 5);
 bytes_harness!(cursor_bytes_total_len6, 6);
 bytes_harness!(cursor_bytes_total_len8, 8);
+
+/// Replaced (kani::stub) by types::verif_kani::actor_of_len (builds the ActorId in its private representation).
+fn actor_of_len(len: usize) -> ActorId {
+    ActorId::from(vec![0x5a; len])
+}
+
+fn put_varint14(out: &mut [u8], v: u64) -> usize {
+    if v < 128 {
+        out[0] = v as u8;
+        1
+    } else {
+        out[0] = (v as u8 & 0x7f) | 0x80;
+        out[1] = (v >> 7) as u8;
+        2
+    }
+}
+
+/// Cursor::to_bytes writes the documented framing: version 1, then start / end tag, or op tag,
+/// uLEB(actor length), actor bytes, uLEB(counter), move tag (1 = before, 2 = after). Actor of L bytes
+/// (both sides of the one/two-byte length prefix), counter ANY value below 2^14, both move modes.
+fn cursor_framing<const L: usize>() {
+    assert!(Cursor::Start.to_bytes() == vec![1u8, 1]);
+    assert!(Cursor::End.to_bytes() == vec![1u8, 2]);
+    let ctr: u64 = kani::any();
+    kani::assume(ctr < (1 << 14));
+    let before: bool = kani::any();
+    let c = Cursor::Op(OpCursor {
+        ctr,
+        actor: actor_of_len(L),
+        move_cursor: if before { MoveCursor::Before } else { MoveCursor::After },
+    });
+    let bytes = c.to_bytes();
+    let mut want = [0u8; 160];
+    want[0] = 1;
+    want[1] = 3;
+    let mut n = 2;
+    n += put_varint14(&mut want[n..], L as u64);
+    let actor_at = n;
+    n += L;
+    n += put_varint14(&mut want[n..], ctr);
+    want[n] = if before { 1 } else { 2 };
+    n += 1;
+    assert!(bytes.len() == n);
+    assert!(bytes[0] == 1 && bytes[1] == 3 && bytes[2] == want[2] && (actor_at < 4 || bytes[3] == want[3]));
+    assert!(L == 0 || (bytes[actor_at] == 0x5a && bytes[actor_at + L - 1] == 0x5a));
+    let mut i = actor_at + L;
+    while i < n {
+        assert!(bytes[i] == want[i]);
+        i += 1;
+    }
+    kani::cover!(before && ctr >= 128);
+    kani::cover!(!before && ctr < 128);
+    std::mem::forget(bytes);
+    std::mem::forget(c);
+}
+
+macro_rules! cursor_framing_harness {
+    ($name:ident, $l:expr) => {
+        #[kani::proof]
+        #[kani::unwind(12)]
+        #[kani::stub(actor_of_len, crate::types::verif_kani::actor_of_len)]
+        fn $name() {
+            cursor_framing::<$l>()
+        }
+    };
+}
+cursor_framing_harness!(cursor_bytes_framing_actor1, 1);
+cursor_framing_harness!(cursor_bytes_framing_actor16, 16);
+cursor_framing_harness!(cursor_bytes_framing_actor128, 128);
+
+/// String form, writer side: Display of an element cursor is ["-" for Before] counter "@" actor-hex
+/// (what Cursor::try_from(&str) reads back: cursor_str_* harnesses). Counter 0..=9, one-byte actor
+/// of any value, both move modes.
+#[kani::proof]
+#[kani::unwind(8)]
+fn cursor_display_format() {
+    let ctr: u64 = kani::any();
+    kani::assume(ctr < 10);
+    let a: u8 = kani::any();
+    let before: bool = kani::any();
+    let c = Cursor::Op(OpCursor {
+        ctr,
+        actor: ActorId::from(&[a][..]),
+        move_cursor: if before { MoveCursor::Before } else { MoveCursor::After },
+    });
+    let s = c.to_string();
+    let b = s.as_bytes();
+    let off = if before { 1 } else { 0 };
+    assert!(b.len() == off + 4);
+    assert!(!before || b[0] == b'-');
+    assert!(b[off] == b'0' + ctr as u8);
+    assert!(b[off + 1] == b'@');
+    let hex = b"0123456789abcdef";
+    assert!(b[off + 2] == hex[(a >> 4) as usize] && b[off + 3] == hex[(a & 15) as usize]);
+    kani::cover!(before && a >= 0xa0);
+    kani::cover!(!before);
+    std::mem::forget(s);
+    std::mem::forget(c);
+}
